@@ -298,7 +298,8 @@ func HashObject(r io.Reader) (string, error) {
 }
 
 func Log(args ...string) (*subprocess.BufferedCmd, error) {
-	logArgs := append([]string{"log"}, args...)
+	// -m is to mean one diff per parent whatever log.diffMerges says
+	logArgs := append([]string{"-c", "log.diffMerges=separate", "log"}, args...)
 	return gitNoLFSBuffered(logArgs...)
 }
 
